@@ -244,6 +244,9 @@ func (e *refEnc) encode(v reflect.Value, p rparams) ([]byte, error) {
 					return nil, errPresent
 				}
 				ap := parseTag(t.Field(pr).Tag.Get("ber"))
+				if ap.tag == nil {
+					e.feat("untagged-alternative")
+				}
 				if p.tag == nil {
 					return e.encode(v.Field(pr), ap)
 				}
@@ -281,6 +284,9 @@ func (e *refEnc) encode(v reflect.Value, p rparams) ([]byte, error) {
 					}
 					if fp.open {
 						return nil, errOpen
+					}
+					if fp.tag == nil {
+						e.feat("untagged-member")
 					}
 					cm := len(e.spans)
 					b, err := e.encode(fv, fp)
